@@ -20,7 +20,7 @@ use klukai_types::{
     base::CrsqlDbVersion,
     broadcast::Timestamp,
     change::{InsertChangesInfo, SqliteValue, insert_local_changes},
-    schema::{apply_schema, parse_sql},
+    schema::{apply_schema, init_schema, parse_sql},
     sqlite::SqlitePoolError,
 };
 use klukai_types::{
@@ -607,7 +607,17 @@ pub(crate) async fn execute_schema(agent: &Agent, statements: Vec<String>) -> ey
 
     apply_res?;
 
-    *schema_write = new_schema;
+    // what the node works with must describe the database as it is now (e.g. columns
+    // added by ALTER TABLE come last, whatever position the submitted text gave them),
+    // which is also what a restart loads: read it back instead of trusting the text
+    let reloaded = block_in_place(|| init_schema(&conn)).ok().and_then(|mut schema| {
+        schema.constrain().ok()?;
+        Some(schema)
+    });
+    *schema_write = reloaded.unwrap_or_else(|| {
+        warn!("could not reload the schema after applying it, keeping the submitted one");
+        new_schema
+    });
 
     Ok(())
 }
